@@ -6,15 +6,15 @@ Local Open Scope string_scope.
 Local Open Scope list_scope.
 
 (* ---- single commands while idle ---- *)
-Lemma step_uci extra u input :
-  uci_step extra u "uci" input = (u, [OText "id name JENCE"; OText "id author Joachim Enggaard Nebel"; OText "uciok"], None, input, Continue).
+Lemma step_uci extra dl u input :
+  uci_step extra dl u "uci" input = (u, [OText "id name JENCE"; OText "id author Joachim Enggaard Nebel"; OText "uciok"], None, input, Continue).
 Proof. reflexivity. Qed.
-Lemma step_isready extra u input : uci_step extra u "isready" input = (u, [OText "readyok"], None, input, Continue).
+Lemma step_isready extra dl u input : uci_step extra dl u "isready" input = (u, [OText "readyok"], None, input, Continue).
 Proof. reflexivity. Qed.
-Lemma step_quit extra u input : uci_step extra u "quit" input = (u, [OText " Exited!"], None, input, Exit).
+Lemma step_quit extra dl u input : uci_step extra dl u "quit" input = (u, [OText " Exited!"], None, input, Exit).
 Proof. reflexivity. Qed.
-Lemma step_ucinewgame extra u input :
-  uci_step extra u "ucinewgame" input = (mkU (u_game u) (clear (u_tt u)) [], [], None, input, Continue).
+Lemma step_ucinewgame extra dl u input :
+  uci_step extra dl u "ucinewgame" input = (mkU (u_game u) (clear (u_tt u)) [], [], None, input, Continue).
 Proof. reflexivity. Qed.
 
 (* ---- lines that arrive during a search ---- *)
@@ -89,8 +89,8 @@ Proof.
 Qed.
 
 (* ---- the main loop always comes to an end: quit / end of input is reached, whatever the commands were ---- *)
-Lemma uci_step_input extra u l input u' outs rq input' st :
-  uci_step extra u l input = (u', outs, rq, input', st) ->
+Lemma uci_step_input extra dl u l input u' outs rq input' st :
+  uci_step extra dl u l input = (u', outs, rq, input', st) ->
   List.length input' <= List.length input /\ (rq <> None -> List.length input' < List.length input).
 Proof.
   unfold uci_step. cbn zeta.
@@ -101,56 +101,53 @@ Proof.
          end;
     intros H; try (injection H as <- <- <- <- <-; split; [lia|congruence]).
   (* the search branch *)
-  match goal with E : (if ?c then _ else _) = (_, _, _) |- _ => destruct c end.
-  - match goal with E : (O, @None (nat * bool), _) = (_, _, _) |- _ => injection E as <- <- <- end.
-    injection H as <- <- <- <- <-. split; [lia|congruence].
-  - match goal with E : poll_schedule _ _ _ _ = (_, _, _) |- _ =>
-      pose proof (poll_schedule_suffix _ _ _ _ _ _ _ E) as (tk & P & _ & Q) end.
-    injection H as <- <- <- <- <-. rewrite P, app_length. split; [lia|].
-    intros NE. destruct o as [[k [|]]|]; try congruence.
-    destruct (Q k true eq_refl) as (pre & lst & T & _). rewrite T, app_length. cbn. lia.
+  match goal with E : poll_schedule _ _ _ _ = (_, _, _) |- _ =>
+    pose proof (poll_schedule_suffix _ _ _ _ _ _ _ E) as (tk & P & _ & Q) end.
+  injection H as <- <- <- <- <-. rewrite P, app_length. split; [lia|].
+  intros NE. destruct o as [[k [|]]|]; try congruence.
+  destruct (Q k true eq_refl) as (pre & lst & T & _). rewrite T, app_length. cbn. lia.
 Qed.
 
 Definition measure (pending : option string) (input : list (nat * string)) : nat :=
   2 * List.length input + match pending with Some _ => 1 | None => 0 end.
 
 (* with enough fuel the loop never stops for lack of fuel: it ends by Exit or by a panic *)
-Lemma uci_run_ends extra fuel : forall u pending input,
-  measure pending input < fuel -> snd (uci_run extra fuel u pending input) <> Continue.
+Lemma uci_run_ends extra fuel : forall dls u pending input,
+  measure pending input < fuel -> snd (uci_run extra dls fuel u pending input) <> Continue.
 Proof.
-  induction fuel as [|f IH]; intros u pending input M; [lia|].
+  induction fuel as [|f IH]; intros dls u pending input M; [lia|].
   cbn [uci_run].
   assert (HN : forall l input', measure None input' + 1 <= measure pending input ->
                (pending = Some l /\ input' = input) \/ (pending = None /\ exists d, input = (d, l) :: input') ->
-               snd (let '(u', outs, requeue, input'', st) := uci_step extra u l input' in
+               snd (let '(u', outs, requeue, input'', st) := uci_step extra (List.hd O dls) u l input' in
                     match st with
-                    | Continue => let '(outs', st') := uci_run extra f u' requeue input'' in (outs ++ outs', st')
+                    | Continue => let '(outs', st') := uci_run extra (List.tl dls) f u' requeue input'' in (outs ++ outs', st')
                     | _ => (outs, st)
                     end) <> Continue).
   { intros l input' ML _.
-    destruct (uci_step extra u l input') as [[[[u' outs] rq] input''] st] eqn:E.
-    destruct (uci_step_input _ _ _ _ _ _ _ _ _ E) as [L1 L2].
+    destruct (uci_step extra (List.hd O dls) u l input') as [[[[u' outs] rq] input''] st] eqn:E.
+    destruct (uci_step_input _ _ _ _ _ _ _ _ _ _ E) as [L1 L2].
     destruct st; cbn [snd]; try discriminate.
-    specialize (IH u' rq input'').
+    specialize (IH (List.tl dls) u' rq input'').
     assert (M' : measure rq input'' < f).
     { unfold measure in *. destruct rq; [specialize (L2 ltac:(discriminate))|]; lia. }
-    specialize (IH M'). destruct (uci_run extra f u' rq input'') as [o s]. cbn [snd] in *. exact IH. }
+    specialize (IH M'). destruct (uci_run extra (List.tl dls) f u' rq input'') as [o s]. cbn [snd] in *. exact IH. }
   destruct pending as [l|].
   - apply HN; [unfold measure; lia|left; auto].
   - destruct input as [|[d l] r]; [cbn; discriminate|].
     apply (HN l r); [unfold measure; cbn [List.length]; lia|right; split; [reflexivity|exists d; reflexivity]].
 Qed.
 
-Theorem uci_session_ends extra input : snd (uci_session extra input) <> Continue.
+Theorem uci_session_ends extra dls input : snd (uci_session extra dls input) <> Continue.
 Proof.
   unfold uci_session. apply uci_run_ends. unfold measure, with_eof. rewrite app_length. cbn. lia.
 Qed.
 
 (* ---- C18: `ucinewgame` followed by a `position` command leaves exactly the state a fresh engine has after that command ---- *)
-Lemma step_position extra u P input g rep :
+Lemma step_position extra dl u P input g rep :
   trim P <> "" -> lower_str (first_token (trim P)) = "position" -> rest_tokens (trim P) <> [] ->
   parse_position (skip 9 (trim P)) = FOk (g, rep) ->
-  uci_step extra u P input = (mkU g (u_tt u) rep, [], None, input, Continue).
+  uci_step extra dl u P input = (mkU g (u_tt u) rep, [], None, input, Continue).
 Proof.
   intros NE CMD ARG PP. unfold uci_step. cbn zeta.
   destruct (String.eqb (trim P) "") eqn:E; [apply String.eqb_eq in E; contradiction|].
@@ -160,14 +157,14 @@ Proof.
   cbn [orb]. destruct (rest_tokens (trim P)) as [|x r]; [contradiction|]. cbn [negb]. rewrite PP. reflexivity.
 Qed.
 
-Theorem ucinewgame_then_position_is_fresh extra u P input input' g rep :
+Theorem ucinewgame_then_position_is_fresh extra dl u P input input' g rep :
   trim P <> "" -> lower_str (first_token (trim P)) = "position" -> rest_tokens (trim P) <> [] ->
   parse_position (skip 9 (trim P)) = FOk (g, rep) ->
-  let '(u1, _, _, _, _) := uci_step extra u "ucinewgame" input in
-  uci_step extra u1 P input' = uci_step extra init_ustate P input'.
+  let '(u1, _, _, _, _) := uci_step extra dl u "ucinewgame" input in
+  uci_step extra dl u1 P input' = uci_step extra dl init_ustate P input'.
 Proof.
   intros NE CMD ARG PP. rewrite step_ucinewgame.
-  rewrite (step_position extra _ P input' g rep NE CMD ARG PP), (step_position extra init_ustate P input' g rep NE CMD ARG PP).
+  rewrite (step_position extra dl _ P input' g rep NE CMD ARG PP), (step_position extra dl init_ustate P input' g rep NE CMD ARG PP).
   reflexivity.
 Qed.
 
@@ -192,10 +189,10 @@ Proof.
   rewrite (perft_fold_lines (perft (S k)) g (generate_moves g true) 0%N). rewrite N.add_0_l. reflexivity.
 Qed.
 
-Lemma step_perft extra u line input t r d :
+Lemma step_perft extra dl u line input t r d :
   trim line <> "" -> lower_str (first_token (trim line)) = "perft" -> rest_tokens (trim line) = t :: r ->
   t <> "simple" -> parse_uint 256 t = Some d -> (1 <= d)%N ->
-  uci_step extra u line input = (u, [OPerft d (perft_lines d (u_game u)) (perft_n d (u_game u))], None, input, Continue).
+  uci_step extra dl u line input = (u, [OPerft d (perft_lines d (u_game u)) (perft_n d (u_game u))], None, input, Continue).
 Proof.
   intros NE CM RT NS PU D. unfold uci_step. cbn zeta.
   destruct (String.eqb_spec (trim line) "") as [E|_]; [contradiction|]. rewrite CM. cbn [String.eqb Ascii.eqb Bool.eqb orb].
